@@ -126,7 +126,12 @@ def c02(tier, seed, work):
                store_consts(Buckets={"bkt1"}, KeySetName="coll", Bodies={"x1", "x2"}, CfgName="single",
                             OpNames={"PutMeta", "PutMetaB", "GetObject", "HeadObject", "DeleteObject", "ListObjects"}),
                ["singlemem", "singleos"], small=True, **st)
-    # keys that are prefixes of one another (key-value backends), every multi-delete subset
+    # a key that is the percent-escaped spelling of another one (a/b, a%2Fb): copies between them in both directions
+    # (the copy source travels escaped in a header, the destination in the request line)
+    tour_stage(rep, work, "escaped-spelling-keys", "MC_Store",
+               store_consts(Buckets={"bkt1"}, KeySetName="pct", Bodies={"x1", "x2"},
+                            OpNames={"CreateBucket", "PutObject", "CopyObject", "GetObject", "DeleteObject", "ListObjects"}),
+               ALL4, small=True, **st)
     tour_stage(rep, work, "prefix-keys-kv", "MC_Store",
                store_consts(Buckets={"bkt1"}, KeySetName="list", Bodies={"x1"},
                             OpNames={"CreateBucket", "DeleteBucket", "PutObject", "GetObject", "DeleteObject", "DeleteMulti", "ListObjects"}),
@@ -246,6 +251,11 @@ def c03(tier, seed, work):
     tour_stage(rep, work, "single-after-multi-delete", "MC_List",
                list_consts(MaxSet=2, FsDomain=True, Delims={0, 47}, CfgName="single", MultiDead=True),
                ["singlemem", "singleos"], invariants=["EmitInv"], **common)
+    # a listing that names a prefix, a delimiter and a marker / start-after / token at once: the marker before, inside
+    # and beyond the prefix's range ("nothing else": nothing at or before the marker)
+    tour_stage(rep, work, "mem-prefix-delimiter-marker", "MC_List",
+               list_consts(MaxSet=2, MaxLen=3, PrefixLen=1, Delims={0, 47}, CfgName="mem", Markers=True),
+               ["mem"], invariants=["EmitInv"], **common)
     # listings of a versioned bucket in which keys are delete-marked (first, middle or last of their group)
     tour_stage(rep, work, "versioned-delete-marked-keys", "MC_Store",
                store_consts(Buckets={"bkt1"}, KeySetName="nest", CfgName="memenabled", Bodies={"x1"}, MaxVids=5, Ghosts=False,
